@@ -311,19 +311,23 @@ Act(S, x, rule, atom, ctr, d, use) ==
                                                 unique |-> FALSE, detached |-> FALSE], d)
               IN [S |-> r.S, new |-> IF r.err = "" THEN Tmp(ctr) ELSE None, err |-> r.err, partial |-> r.partial]
 
-RECURSIVE ExecFrom(_, _, _, _, _, _, _, _, _)
-ExecFrom(S, root, order, j, rule, atom, ctr, d, use) ==      \* result [S, err, partial, ret]
+(* the registry is weak: a node made by the rule that nothing holds any more (e.g. the replacement of a parentless
+   node, once the loop has moved on) is gone at once, and its id is free again *)
+Collect(S, old) == DropObjs(S, (Names(S) \ old) \ UNION {Reach(S.obj, y) : y \in old})
+
+RECURSIVE ExecFrom(_, _, _, _, _, _, _, _, _, _)
+ExecFrom(S, root, order, j, rule, atom, ctr, d, use, old) ==      \* result [S, err, partial, ret]
     IF j > Len(order) THEN [S |-> S, err |-> "", partial |-> FALSE, ret |-> root]
     ELSE LET x == order[j]
              a == Act(S, x, rule, atom, ctr, d, use)
          IN IF a.err # "" THEN [S |-> a.S, err |-> a.err, partial |-> TRUE, ret |-> None]     \* the rule's own call failed (not wrapped)
             ELSE IF x = root THEN [S |-> a.S, err |-> "", partial |-> FALSE, ret |-> a.new]     \* the root's result is only returned
-            ELSE IF a.new = x THEN ExecFrom(a.S, root, order, j + 1, rule, atom, ctr + 1, d, use)
+            ELSE IF a.new = x THEN ExecFrom(a.S, root, order, j + 1, rule, atom, ctr + 1, d, use, old)
             ELSE IF a.new = None \/ a.S.obj[a.new].id # a.S.obj[x].id
                  THEN LET r == ReplaceWith(a.S, x, a.new) IN
                       IF r.err # "" THEN [S |-> r.S, err |-> "ASTTransformError", partial |-> TRUE, ret |-> None]
-                      ELSE ExecFrom(r.S, root, order, j + 1, rule, atom, ctr + 1, d, use)
-                 ELSE ExecFrom(a.S, root, order, j + 1, rule, atom, ctr + 1, d, use)
+                      ELSE ExecFrom(Collect(r.S, old), root, order, j + 1, rule, atom, ctr + 1, d, use, old)
+                 ELSE ExecFrom(Collect(a.S, old), root, order, j + 1, rule, atom, ctr + 1, d, use, old)
 
 (* -------- ASTTransformVisitor.transform -------- *)
 (* transform(x): an attached x is first cloned (duplicate, detached) and the clone is visited; the visit of a
@@ -402,7 +406,7 @@ Tvisit(S, n, rule, atom, nm, d) ==
     [S |-> T, err |-> tr.err, partial |-> tr.err # "" /\ T # S]
 
 Texec(S, n, rule, atom, nm, d, use) ==
-    LET r == ExecFrom(S, n, PostOrder(S, n, Fuel(S)), 1, rule, atom, 1, d, use)
+    LET r == ExecFrom(S, n, PostOrder(S, n, Fuel(S)), 1, rule, atom, 1, d, use, Names(S))
     IN [S |-> RenameBelow(r.S, Names(S), r.ret, nm), err |-> r.err, partial |-> r.partial]
 
 Ok(S) == [S |-> S, err |-> "", partial |-> FALSE]
